@@ -5,21 +5,23 @@
   seed_matrix.py [--all-checks] [seed-dir-name ...]
 """
 import sys, os, json, subprocess, shutil, glob, time, re
+BASE = os.path.dirname(os.path.abspath(__file__))
+REPO = os.environ.get("SEED_REPO", "/repo")
 from concurrent.futures import ThreadPoolExecutor
 ALL = "--all-checks" in sys.argv
-names = [a for a in sys.argv[1:] if not a.startswith("--")] or sorted(os.path.basename(d) for d in glob.glob("/verif/seeded/C*"))
+names = [a for a in sys.argv[1:] if not a.startswith("--")] or sorted(os.path.basename(d) for d in glob.glob(BASE + "/seeded/C*"))
 IDS = ["C%02d" % i for i in range(1, 20)]
 def sh(cmd, env=None, cwd=None):
     return subprocess.run(cmd, shell=True, cwd=cwd, env=env, stdout=subprocess.PIPE, stderr=subprocess.STDOUT, text=True)
 def one(name):
-    d = "/verif/seeded/" + name
+    d = BASE + "/seeded/" + name
     meta = json.load(open(d + "/meta.json"))
     pid = meta["property"]
     work = "/var/tmp/seedrun-%s" % name
     shutil.rmtree(work, ignore_errors=True)
     os.makedirs(work)
-    sh("git -C /repo archive HEAD | tar -x -C %s" % work)
-    sh("cp /repo/go.sum %s/ 2>/dev/null" % work)
+    sh("git -C %s archive HEAD | tar -x -C %s" % (REPO, work))
+    sh("cp %s/go.sum %s/ 2>/dev/null" % (REPO, work))
     r = sh("git init -q . && git apply %s/patch.diff" % d, cwd=work)
     if r.returncode != 0:
         r = sh("patch -p1 < %s/patch.diff" % d, cwd=work)
@@ -27,7 +29,7 @@ def one(name):
     env = dict(os.environ, VERIF_REPO=work, VERIF_OUT=work + "/out", VERIF_WORKERS="4", VERIF_SCRATCH=work + "/scratch")
     for c in (IDS if ALL else [pid]):
         t0 = time.time()
-        x = sh("/verif/check %s --tier quick" % c, env=env, cwd="/verif")
+        x = sh("%s/check %s --tier quick" % (BASE, c), env=env, cwd=BASE)
         lines = [l for l in x.stdout.splitlines() if l.startswith(("VIOLATION", "INCONCLUSIVE"))]
         res[c] = dict(exit=x.returncode, s=round(time.time() - t0, 1), lines=[re.sub(r"replay=\S+/", "replay=", l)[:200] for l in lines[:3]])
     shutil.rmtree(work, ignore_errors=True)
